@@ -93,6 +93,19 @@ func TestVerif_C16(t *testing.T) {
 				units = new(big.Int).Add(capU, big.NewInt(int64(rng.Intn(3)-1)))
 			}
 			kind = "deposit-at-capacity"
+		case 6: // a known asset named with another letter case of its key (same id, same chain)
+			a = assets[rng.Intn(2)]
+			kb := []byte(a.Key)
+			flipped := false
+			for i := range kb {
+				if kb[i] >= 'a' && kb[i] <= 'f' && (rng.Intn(2) == 0 || !flipped) {
+					kb[i] -= 'a' - 'A'
+					flipped = true
+				}
+			}
+			a.Key = string(kb)
+			units = big.NewInt(int64(1 + rng.Intn(5e8)))
+			kind = "deposit-asset-key-other-letter-case"
 		default:
 			units = big.NewInt(int64(1 + rng.Intn(5e8)))
 		}
@@ -364,7 +377,14 @@ func TestVerif_C16(t *testing.T) {
 					class = "after-transient-write-conflict-during-validation"
 				}
 				if p.deposit != nil && strings.Contains(msg, "invalid asset info") {
-					class = "pending-first-deposits-of-one-asset-with-different-chain-data"
+					// the recorded finding is about pending FIRST deposits of one fresh asset; a deposit that names other
+					// data for an asset whose data was already recorded when it was validated is something else
+					class = "deposit-naming-other-data-for-a-known-asset"
+					for _, kd := range p.kinds {
+						if kd == "deposit-same-fresh-asset-different-chain-data" {
+							class = "pending-first-deposits-of-one-asset-with-different-chain-data"
+						}
+					}
 				}
 				if p.deposit != nil && strings.Contains(site, "writeTotalInAsset") {
 					alone := new(big.Int).Add(p.deposit.balanceAtVal, p.deposit.units)
